@@ -65,11 +65,13 @@ PROPS["C14"] = dict(
     parts=[dict(bin="e2_bitvec", opts={"prop": "C14", "depth": 3}, tag="dirty-q", tiers=["quick"]),
            dict(bin="e2_bitvec", opts={"prop": "C14", "depth": 5}, tag="dirty-t", tiers=["thorough"]),
            dict(bin="e2_bfv", opts={"prop": "C14", "depth": 3}, tag="dirty-q", tiers=["quick"]),
-           dict(bin="e2_bfv", opts={"prop": "C14", "depth": 4}, tag="dirty-t", tiers=["thorough"])],
+           dict(bin="e2_bfv", opts={"prop": "C14", "depth": 4}, tag="dirty-t", tiers=["thorough"]),
+           # copy into dirty storage, chunked writes and apply_in_place on dirty backends (the C10 engine, relabelled)
+           dict(bin="e1_bulk", opts={"relabel": "C10:C14"}, tag="bulk-writers")],
     rule="BFS over operation histories from dirty from_raw_parts seeds (garbage beyond len: all ones / alternating / single 1 right after the last valid bit / garbage only in spare words; 0-2 spare words); unit = (seed, first operation)",
     alphabet="same operation alphabet as C06/C05, started from dirty storage",
     bound={"quick": "all histories of <= 3 operations from every dirty seed", "thorough": "all histories of <= 5 operations"},
-    oracle="readers: every observation of C06/C05 equals the clean model in every state; writers: on every transition the raw words before/after differ only inside the elements the operation is documented to write (growth: the new elements; shrink: the discarded elements)",
+    oracle="readers: every observation of C06/C05 equals the clean model in every state; writers: on every transition the raw words before/after differ only inside the elements the operation is documented to write (growth: the new elements; shrink: the discarded elements); the bulk writers (copy into a destination with a dirty tail and spare word, chunked writes, apply_in_place) are enumerated by the C10 engine with the same raw-word footprint check",
     assumptions=STRICT,
     mc_note=MC_NOTE,
 )
@@ -90,7 +92,7 @@ PROPS["C05"] = dict(
 LEVEL_TEXT["C05"] = "Explicit-state model checking of the real BitFieldVec<W> against Vec<W> for every word type and a boundary set of widths (all widths for u8/u16 in thorough): every history up to the depth bound is executed on the implementation and all observations are compared in every reached state."
 TECHNIQUE["C05"] = "explicit-state BFS over operation histories executed on the real object per (word type, bit width), observational equivalence with a reference model in every state"
 
-RS_RULE = "case = (structure stack with parameters, shaped bit vector, tail state); vectors: every length 0..=L x {zeros, ones, alternating, single one / single zero at first/mid/last}, concatenations of <= K segments (kind in zeros/ones/alternating/one-every-7/64/65/512, length in word/block/sub-block boundaries +-1), gap families at the U16/U32 span switch (0xFFFF, 0x10000, 0x10001), sparse vectors of 32768/65536 +- delta bits with <= 3 ones (Select9 span classes, word count mod 4), inventory-quantum multiples with ragged tails; tail states fresh / popped / truncated (resize down from +70 ones) / two spare zero words; a case is non-trivial when the vector has at least one one and one zero"
+RS_RULE = "case = (structure stack with parameters, shaped bit vector, tail state); vectors: every length 0..=L x {zeros, ones, alternating, single one / single zero at first/mid/last}, concatenations of <= K segments (kind in zeros/ones/alternating/one-every-7/64/65/512, length in word/block/sub-block boundaries +-1), gap families at the U16/U32 span switch (0xFFFF, 0x10000, 0x10001), sparse vectors of 32768/65536 +- delta bits with <= 3 ones (Select9 span classes, word count mod 4), dense prefixes followed by a very sparse tail (inventory entries with 16/32/64-bit subinventories not starting at 0), their inverses and mirror images, uniformly sparse vectors (one every 2049/4096/8191/70000 bits, 40-300 ones: 32-bit spans, spilling subinventories) with and without a dense block in the middle, inventory-quantum multiples with ragged tails; tail states fresh / popped / truncated (resize down from +70 ones) / two spare zero words; a case is non-trivial when the vector has at least one one and one zero"
 PROPS["C01"] = dict(
     level="exploration",
     engine="E1",
